@@ -42,3 +42,27 @@ package keeper
 //@ ensures err == nil ==> has(Store_tss, types.ConfirmStoreKey(req.GroupID, req.MemberID))
 //@ ensures err == nil && old(ccCount(Store_tss, req.GroupID)) < MaxUint64 ==> ccCount(Store_tss, req.GroupID) == old(ccCount(Store_tss, req.GroupID)) + 1
 //@ ensures err != nil ==> Store_tss == old(Store_tss)
+
+//@ spec tssParams(s Store) types.Params = has(s, types.ParamsKey) ? dec(types.Params, s[types.ParamsKey]) : zero(types.Params)
+
+// C05: a submission that would raise the queued count above MaxDESize is rejected without effect;
+// an accepted one appends exactly the submitted DEs, in order, after the current tail, and touches no
+// other key of the store.
+//@ func (k Keeper) EnqueueDEs
+//@ modifies Store_tss
+//@ requires wfDE(Store_tss, address)
+//@ requires DEQ(Store_tss, address).Tail + len(des) <= MaxUint64
+//@ ensures  err == nil <==> old(DEQ(Store_tss, address).Tail - DEQ(Store_tss, address).Head) + len(des) <= old(tssParams(Store_tss)).MaxDESize
+//@ ensures  err != nil ==> Store_tss == old(Store_tss)
+//@ ensures  err == nil ==> DEQ(Store_tss, address) == types.DEQueue{old(DEQ(Store_tss, address).Head), old(DEQ(Store_tss, address).Tail) + len(des)}
+//@ ensures  err == nil ==> (forall j :: 0 <= j && j < len(des) ==> DEat(Store_tss, address, old(DEQ(Store_tss, address).Tail) + j) == des[j])
+//@ ensures  err == nil ==> wfDE(Store_tss, address)
+//@ ensures  err == nil ==> (forall q Bz :: q != types.DEQueueStoreKey(address)
+//@               && !(iskey(types.DEStoreKey, q) && keyarg(types.DEStoreKey, q, 0) == address
+//@                    && old(DEQ(Store_tss, address).Tail) <= keyarg(types.DEStoreKey, q, 1)
+//@                    && keyarg(types.DEStoreKey, q, 1) < old(DEQ(Store_tss, address).Tail) + len(des))
+//@               ==> Store_tss[q] == old(Store_tss)[q])
+//@ loop 0: invariant forall q Bz :: Store_tss[q] ==
+//@               ((iskey(types.DEStoreKey, q) && keyarg(types.DEStoreKey, q, 0) == address
+//@                 && deQueue.Tail <= keyarg(types.DEStoreKey, q, 1) && keyarg(types.DEStoreKey, q, 1) < deQueue.Tail + #i)
+//@                ? enc(des[keyarg(types.DEStoreKey, q, 1) - deQueue.Tail]) : old(Store_tss)[q])
